@@ -733,3 +733,126 @@ func ruleBuildSectionsCloseByLevel(c *eng.Ctx) {
 	}
 	c.Check(found, R, "rag.(*Chunker).buildSections#close-by-level", fn.Pos(), "open sections are closed by comparing their recorded level with the new heading's", "no loop compares the level of the open sections with the new heading's level: the stack is cut by a depth derived from the new level alone, so with skipped levels a sibling is nested under its predecessor")
 }
+
+// R19.12 [C19]
+func ruleEpubModePassthrough(c *eng.Ctx) {
+	const R = "R19.12-EPUB-MODE-PASSTHROUGH"
+	c.Rule(R, "the EPUB reader hands the caller's navigation-exclusion mode to the HTML reader unchanged: for each of the four modes, the value stored into htmldoc.ExtractOptions.NavigationExclusion is that mode on every path (evaluated over the four values; a clamp or mapping that changes a valid mode breaks the mode lattice through the EPUB entry point)", 2, 0)
+	var modes []int64
+	var epub []*ssa.Function
+	for _, fn := range c.P.ModuleFuncs() {
+		if fn.Pkg != nil && eng.ShortPath(fn.Pkg.Pkg.Path()) == "epubdoc" {
+			epub = append(epub, fn)
+		}
+	}
+	if len(epub) == 0 {
+		c.Undec(R, "epubdoc", token.NoPos, "package not found")
+		return
+	}
+	for _, imp := range epub[0].Pkg.Pkg.Imports() {
+		if strings.HasSuffix(imp.Path(), "/htmldoc") {
+			for _, n := range []string{"NavigationExclusionNone", "NavigationExclusionExplicit", "NavigationExclusionStandard", "NavigationExclusionAggressive"} {
+				if k, ok := imp.Scope().Lookup(n).(*types.Const); ok {
+					if x, ok := constant.Int64Val(k.Val()); ok {
+						modes = append(modes, x)
+					}
+				}
+			}
+		}
+	}
+	if len(modes) != 4 {
+		c.Undec(R, "htmldoc.NavigationExclusionMode", token.NoPos, "the four mode constants were not found")
+		return
+	}
+	isModeField := func(v ssa.Value) bool {
+		if fr, ok := eng.LoadOfField(v); ok && fr.Field == "NavigationExclusion" && strings.HasSuffix(fr.Struct, "epubdoc.ExtractOptions") {
+			return true
+		}
+		if f, ok := v.(*ssa.Field); ok {
+			if fr, ok := eng.AsField(f); ok && fr.Field == "NavigationExclusion" && strings.HasSuffix(fr.Struct, "epubdoc.ExtractOptions") {
+				return true
+			}
+		}
+		return false
+	}
+	// an integer parameter that every call site in the package feeds with the caller's mode
+	modeParam := func(p *ssa.Parameter) bool {
+		sites := 0
+		okAll := true
+		for _, g := range epub {
+			eng.Instrs(g, false, func(in ssa.Instruction) {
+				ci, ok := in.(ssa.CallInstruction)
+				if !ok || ci.Common().StaticCallee() != p.Parent() {
+					return
+				}
+				idx := -1
+				for i, q := range p.Parent().Params {
+					if q == p {
+						idx = i
+					}
+				}
+				if idx < 0 || idx >= len(ci.Common().Args) {
+					okAll = false
+					return
+				}
+				sites++
+				a := ci.Common().Args[idx]
+				for {
+					if cv, ok := a.(*ssa.Convert); ok {
+						a = cv.X
+						continue
+					}
+					if ct, ok := a.(*ssa.ChangeType); ok {
+						a = ct.X
+						continue
+					}
+					break
+				}
+				if !isModeField(a) {
+					okAll = false
+				}
+			})
+		}
+		return sites > 0 && okAll
+	}
+	for _, fn := range epub {
+		n := 0
+		eng.Instrs(fn, false, func(in ssa.Instruction) {
+			st, ok := in.(*ssa.Store)
+			if !ok {
+				return
+			}
+			fr, ok := eng.AsField(st.Addr)
+			if !ok || fr.Field != "NavigationExclusion" || !strings.HasSuffix(fr.Struct, "htmldoc.ExtractOptions") {
+				return
+			}
+			n++
+			var bad []string
+			for _, m := range modes {
+				m := m
+				vals, unknown := eng.EvalAt(fn, func(v ssa.Value) (int64, bool) {
+					if isModeField(v) {
+						return m, true
+					}
+					if p, ok := v.(*ssa.Parameter); ok && p.Parent() == fn {
+						if bt, ok := p.Type().Underlying().(*types.Basic); ok && bt.Info()&types.IsInteger != 0 && modeParam(p) {
+							return m, true
+						}
+					}
+					return 0, false
+				}, st, st.Val)
+				if unknown {
+					bad = append(bad, fmt.Sprintf("mode %d: not a function of the caller's mode alone", m))
+					continue
+				}
+				for x := range vals {
+					if x != m {
+						bad = append(bad, fmt.Sprintf("mode %d is handed on as %d", m, x))
+					}
+				}
+			}
+			sort.Strings(bad)
+			c.Check(len(bad) == 0, R, fmt.Sprintf("%s#mode%d", eng.FuncName(fn), n), st.Pos(), "each mode is handed on unchanged", strings.Join(bad, "; ")+": through the EPUB entry point a stricter mode no longer returns a subsequence of the weaker one")
+		})
+	}
+}
